@@ -2,9 +2,9 @@
 namespace sc {
 enum { MAXT = 4, MAXP = 4096, MAXLOG = 8192 };
 struct Point { int nen; bool cur_enabled; int chosen; int from; int next; unsigned enabled_mask; int acc; /* index into log of the access `from` is about to perform, -1 none */ };
-struct Access { int tid; long off; int size; bool write; };
+struct Access { int tid; long off; int size; bool write; bool atomic; int vc[MAXT]; /* vector clock of the thread at the access */ };
 struct State {
-  int nthreads; volatile int go[MAXT]; volatile int done; bool finished[MAXT];
+  int nthreads; volatile int go[MAXT]; volatile int done; bool finished[MAXT]; bool blocked[MAXT]; const void *waits_on[MAXT]; int deadlock; int vc[MAXT][MAXT]; int syncops;
   int prefix[MAXP]; int nprefix; int pos;
   Point points[MAXP]; int npoints;
   Access log[MAXLOG]; int nlog; int overflow;
